@@ -58,9 +58,9 @@ theorem drawn_gc (l : Option Int) {d : Desc} (hd : Drawn U d) : Drawn U (removeT
 
 /-- value a node stores for a key after it merged message value `m` at clock `now` with retention `lit`
 (`mergeValueForKey`, gossip path, `LeftIngestersTimeout = lit > 0`): unchanged if the merge reports
-no change; otherwise the merged value minus the tombstones older than `now - lit` -/
+no change; otherwise the merged value minus the tombstones older than `now + 1 - lit` -/
 def deliverVal (lit now : Int) (s m : Desc) : Desc :=
-  if (C03.merge false 0 s m).change = none then s else removeTombstones (some (now - lit)) (mergeState s m)
+  if (C03.merge false 0 s m).change = none then s else removeTombstones (some (now + 1 - lit)) (mergeState s m)
 
 theorem deliverVal_drawn (hU : Univ U) (lit now : Int) {s m : Desc} (hs : Drawn U s) (hm : Drawn U m) :
     Drawn U (deliverVal lit now s m) := by
@@ -73,7 +73,7 @@ theorem deliver_sval_gc (hU : Univ U) {cfg : Cfg} (hlit : cfg.lit > 0) (now : In
     {c : Entry Desc} (hg : getE nd.store m.key = some c) (hc : Drawn U c.val) (hcd : c.deleted = false)
     (hm : Drawn U m.val) (hmd : m.deleted = false) :
     sval (deliver cfg now nd m).store m.key = deliverVal cfg.lit now c.val m.val := by
-  have hlim : cfg.limit now = some (now - cfg.lit) := by unfold Cfg.limit; rw [if_pos hlit]
+  have hlim : cfg.limit now = some (now + 1 - cfg.lit) := by unfold Cfg.limit; rw [if_pos hlit]
   have hm' : (MergeVal.merge false now c.val m.val : Option (Desc × Option Desc)) =
       some ((C03.merge false 0 c.val m.val).state, (C03.merge false 0 c.val m.val).change) := by
     show some ((C03.merge false now c.val m.val).state, (C03.merge false now c.val m.val).change) = _
@@ -97,11 +97,11 @@ theorem deliver_sval_gc (hU : Univ U) {cfg : Cfg} (hlit : cfg.lit > 0) (now : In
       | true => exact absurd ((ids_isEmpty ch).1 h) hne
     simp only [hemp, Bool.false_and, Bool.false_eq_true, if_false, Option.map_some]
     have hst : (C03.merge false 0 c.val m.val).state = mergeState c.val m.val := rfl
-    by_cases hem : (MergeVal.names (MergeVal.gc (some (now - cfg.lit)) ch : Desc)).isEmpty = true
+    by_cases hem : (MergeVal.names (MergeVal.gc (some (now + 1 - cfg.lit)) ch : Desc)).isEmpty = true
     · simp only [hem, if_true, Bool.false_eq_true, if_false, sval_setE]
       rfl
-    · have hem' : (MergeVal.names (MergeVal.gc (some (now - cfg.lit)) ch : Desc)).isEmpty = false := by
-        cases h : (MergeVal.names (MergeVal.gc (some (now - cfg.lit)) ch : Desc)).isEmpty with
+    · have hem' : (MergeVal.names (MergeVal.gc (some (now + 1 - cfg.lit)) ch : Desc)).isEmpty = false := by
+        cases h : (MergeVal.names (MergeVal.gc (some (now + 1 - cfg.lit)) ch : Desc)).isEmpty with
         | false => rfl
         | true => exact absurd h hem
       simp only [hem', Bool.false_eq_true, if_false, broadcast_store, notify_store', sval_setE]
@@ -114,7 +114,7 @@ delivery `x` is still a tombstone or has been collected — and it is kept while
 theorem tombstone_blocks_retention (hU : Univ U) (lit now : Int) {s m : Desc} (hs : Drawn U s) (hm : Drawn U m) (x : String)
     (e : Inst) (he : get? s x = some e) (hleft : e.state = .LEFT) (hold : ∀ e', get? m x = some e' → e'.ts ≤ e.ts) :
     (∀ e', get? (deliverVal lit now s m) x = some e' → e' = e) ∧
-    (e.ts ≥ now - lit → get? (deliverVal lit now s m) x = some e) := by
+    (e.ts ≥ now + 1 - lit → get? (deliverVal lit now s m) x = some e) := by
   have hblk := tombstone_blocks hU hs hm x e he hleft hold
   unfold deliverVal
   split
@@ -137,13 +137,13 @@ def deliverSeq (lit : Int) (s : Desc) (ds : List (Int × Desc)) : Desc :=
 
 /-- the property's proviso for histories that reach the retention: when a message is delivered at clock
 `now`, its LIVE entry for `x`, if it is not newer than the removal (`ts ≤ t`, i.e. it was produced
-before the removal), is not older than the retention (`ts ≥ now - lit`) -/
+before the removal), is not older than the retention (`ts ≥ now + 1 - lit`) -/
 def NoStale (lit t : Int) (x : String) (now : Int) (m : Desc) : Prop :=
-  ∀ e, get? m x = some e → e.state ≠ .LEFT → e.ts ≤ t → e.ts ≥ now - lit
+  ∀ e, get? m x = some e → e.state ≠ .LEFT → e.ts ≤ t → e.ts ≥ now + 1 - lit
 
 /-- the invariant: `x` is the removal's tombstone or something newer, or it has been collected -/
 def Removed (lit t : Int) (x : String) (clock : Int) (d : Desc) : Prop :=
-  (∀ e, get? d x = some e → rk e ≥ 2 * t + 1) ∧ (get? d x = none → t < clock - lit)
+  (∀ e, get? d x = some e → rk e ≥ 2 * t + 1) ∧ (get? d x = none → t < clock + 1 - lit)
 
 theorem removed_step (hU : Univ U) {lit t : Int} (x : String) {clock now : Int} (hnow : clock ≤ now) {d m : Desc}
     (hd : Drawn U d) (hm : Drawn U m) (hrem : Removed lit t x clock d) (hns : NoStale lit t x now m) :
@@ -154,7 +154,7 @@ theorem removed_step (hU : Univ U) {lit t : Int} (x : String) {clock now : Int} 
   · have hmd := mergeState_drawn hU hd hm
     have hview := view_merge hU hd hm x
     -- the merged entry of `x`
-    have hmerged : (∀ e, get? (mergeState d m) x = some e → rk e ≥ 2 * t + 1 ∨ (e.state = .LEFT ∧ e.ts < now - lit)) := by
+    have hmerged : (∀ e, get? (mergeState d m) x = some e → rk e ≥ 2 * t + 1 ∨ (e.state = .LEFT ∧ e.ts < now + 1 - lit)) := by
       intro e he
       rw [hview] at he
       unfold maxOpt at he
@@ -261,5 +261,64 @@ theorem removed_of_tombstone {lit t : Int} (x : String) (clock : Int) {s : Desc}
     (hleft : e.state = .LEFT) (hts : e.ts = t) : Removed lit t x clock s :=
   ⟨fun e' h => by rw [he] at h; injection h with h; subst h; unfold rk; rw [if_pos hleft]; omega,
    fun h => by rw [he] at h; cases h⟩
+
+end PfC04
+
+namespace PfC04
+open Ring C03 C06 PfC03 PfC06
+
+variable {U : String → Int → Bool → Inst}
+
+/-- first-value path with retention: a node that has no value for the key stores the message's value minus the
+tombstones that are already older than the retention (nothing at all if nothing is left) -/
+theorem deliver_sval_gc_first {cfg : Cfg} (hlit : cfg.lit > 0) (now : Int) {nd : Node Desc} {m : Msg Desc}
+    (hg : getE nd.store m.key = none) (hmd : m.deleted = false) :
+    sval (deliver cfg now nd m).store m.key = removeTombstones (some (now + 1 - cfg.lit)) m.val := by
+  have hlim : cfg.limit now = some (now + 1 - cfg.lit) := by unfold Cfg.limit; rw [if_pos hlit]
+  have hsv0 : sval nd.store m.key = [] := by unfold sval; rw [hg]
+  unfold deliver
+  rw [hlim, hmd]
+  unfold mergeValueForKey
+  rw [hg]
+  simp only [Bool.false_eq_true, false_and, if_false]
+  by_cases hemp : (MergeVal.names m.val).isEmpty = true
+  · rw [if_pos hemp]
+    simp only [Bool.false_eq_true, if_false]
+    rw [hsv0, (ids_isEmpty m.val).1 hemp]; rfl
+  · rw [if_neg hemp]
+    by_cases hemp2 : (MergeVal.names (MergeVal.gc (some (now + 1 - cfg.lit)) m.val : Desc)).isEmpty = true
+    · rw [if_pos hemp2]
+      simp only [Bool.false_eq_true, if_false]
+      rw [hsv0]
+      exact ((ids_isEmpty _).1 hemp2).symm
+    · rw [if_neg hemp2]
+      simp only [Bool.false_eq_true, if_false, broadcast_store, notify_store', sval_setE]
+      rfl
+
+/-- **discarded only once older than the retention**: if a delivery makes the tombstone `x@t` disappear from
+the stored value altogether, then `t ≤ now − lit` (it can otherwise only be replaced by a newer entry) -/
+theorem collected_only_when_old (hU : Univ U) (lit now : Int) {s m : Desc} (hs : Drawn U s) (hm : Drawn U m) (x : String)
+    (e : Inst) (he : get? s x = some e) (hleft : e.state = .LEFT) (hgone : get? (deliverVal lit now s m) x = none) :
+    e.ts < now + 1 - lit := by
+  unfold deliverVal at hgone
+  split at hgone
+  · rw [he] at hgone; cases hgone
+  · have hmd := mergeState_drawn hU hs hm
+    rw [get?_gc _ _ hmd.nodup] at hgone
+    have hle : rkO (get? s x) ≤ rkO (get? (mergeState s m) x) := le_merge_left hU hs hm x
+    cases hg : get? (mergeState s m) x with
+    | none =>
+      rw [he, hg, rkO_some, rkO_none] at hle
+      have := rk_pos (hs.pos e (get?_mem he)); omega
+    | some e' =>
+      rw [hg] at hgone
+      simp only at hgone
+      split at hgone
+      · rename_i hc
+        rw [he, hg, rkO_some, rkO_some] at hle
+        unfold rk at hle
+        rw [if_pos hleft, if_pos hc.1] at hle
+        have := hc.2; omega
+      · cases hgone
 
 end PfC04
